@@ -186,6 +186,9 @@ class Sched:
     # -- thread wrappers -------------------------------------------------------------------------
     def start_thread(self, thread, name):
         """Replacement for Thread.start(): the new thread waits for the baton first."""
+        # deterministic actor names (Python numbers "Thread-N" process-wide)
+        base = name if not name.startswith("Thread-") else "thread"
+        name = f"{base}#{len(self.actors)}"
         a = self.new_actor(name)
         a.thread = thread
         orig_run = thread.run
@@ -332,7 +335,7 @@ class ThreadedController(Controller):
             while sch and sch[0]._cancelled:
                 import heapq
                 heapq.heappop(sch)._scheduled = False
-            if sch:
+            if sch and sch[0]._when != float("inf"):
                 loop._vtime = max(loop._vtime, sch[0]._when)
                 ctl._timer_due = True
                 return True
